@@ -18,11 +18,12 @@ Shapes ==
   { Null, BoolV(TRUE), Num(5), Num(0), Str("x"), Str(""), Var("?v"), Var("?"), EmptyObj, Arr({}),
     Arr({Num(1), Str("a")}), Arr({Var("?v"), Var("?w")}), Arr({Null}), O1("a", Num(1)), O1("?k", Num(1)),
     O2("?k", Num(1), "b", Num(2)), Arr({O1("a", Num(1)), Str("s")}), O1("a", O1("b", Arr({EmptyObj}))),
-    Arr({Arr({Arr({})})}) }
+    Arr({Arr({Arr({})})}),
+    Arr({Null, Str("x")}), Arr({Null, Str("a"), Str("b")}), Arr({Null, Num(1), Num(2)}) }     \* null among atoms of one type
 
 TopKeys == {"rule", "when", "pattern", "schedule", "condition", "action", "actions", "expires", "ttl",
             "deleteWith", "id", "!enabled", "!writeKey", "!x", "trigger!", "evaluate!", "code",
-            "and", "or", "not", "locations", "policies", "once", "props", "?k", ""}
+            "and", "or", "not", "locations", "policies", "once", "props", "?k", "", "!cacheTTL"}
 RuleKeys == {"when", "schedule", "condition", "action", "actions", "expires", "ttl", "deleteWith", "policies", "once", "id"}
 
 GoodAction == O1("code", Str("1"))
@@ -37,6 +38,8 @@ Docs ==
   \cup {O1("rule", O2(k, v, "action", GoodAction)) : k \in {"when", "schedule", "condition"}, v \in Shapes}
   \cup {O2("when", GoodWhen, k, v) : k \in RuleKeys \ {"when"}, v \in Shapes}          \* as a rule body
   \cup {O2("when", O1("pattern", v), "action", GoodAction) : v \in Shapes}
+  \cup {O2("when", O1("pattern", O1("a", v)), "action", GoodAction) : v \in Shapes}     \* every shape as the VALUE of an indexed property
+  \cup {O1(k, v) : k \in {"a", "canary-event"}, v \in Shapes}                           \* ... and of a property an indexed rule names
   \cup {O2("when", GoodWhen, "action", O1(k, v)) : k \in {"code", "endpoint", "opts"}, v \in Shapes}
   \cup {O1(q, O1(k, v)) : q \in {"not", "condition"}, k \in {"pattern", "code", "and", "or", "not"}, v \in Shapes}
   \cup {O2("a", v, "b", w) : v \in {Var("?v"), Str("x")}, w \in {Var("?v"), Var("?w"), Arr({Var("?v")})}}
